@@ -605,6 +605,52 @@ class PrivateOptionSpellings(Part):
         return res
 
 
+class Columns(Part):
+    name = "masks_and_preserved_addresses_across_columns_of_long_lines"
+    desc = "a mask / preserved address straddling column 2^k (k = 8..17) of a long line at every split position: verbatim"
+
+    def __init__(self, tier, seed):
+        self.tier, self.seed = tier, seed
+
+    def cases(self):
+        return [{"P": 1 << k} for k in range(8, 18)] + [{"P": p} for p in (1000, 10000, 65535, 65537)]
+
+    def run(self, case):
+        import io
+
+        from netconan.anonymize_files import FileAnonymizer
+
+        res = Res()
+        P = case["P"]
+        toks = ["255.255.255.0", "0.0.0.255", "255.255.255.252", "10.1.2.3", "192.168.44.5", "172.16.0.1", "255.0.0.0"]
+        lines, meta = [], []
+        for t in toks:
+            for sh in range(1, len(t)):
+                for lead in ("x" * max(1, P - sh - 1) + " ", ("word " * (P // 5 + 1))[: max(1, P - sh - 1)] + " "):
+                    lines.append(lead + t + " end")
+                    meta.append((t, sh))
+        with seams.capture_logs():
+            fa = FileAnonymizer(anon_pwd=False, anon_ip=True, salt="saltForTest",
+                                preserve_networks=["10.0.0.0/8", "172.16.0.0/12", "192.168.0.0/16"],
+                                preserve_suffix_v4=0, preserve_suffix_v6=0)
+            out = io.StringIO()
+            fa.anonymize_io(io.StringIO("".join(l + "\n" for l in lines)), out)
+        got = out.getvalue().split("\n")[:-1]
+        if len(got) != len(lines):
+            res.violation("line-count|long-lines", "%d in, %d out" % (len(lines), len(got)), case)
+            return res
+        for ln, g, (t, sh) in zip(lines, got, meta):
+            res.evals += 1
+            res.nt((P, t, sh))
+            if g != ln:
+                res.violation("preserved-value-changed-on-a-long-line|column=%d" % P,
+                              "%r starting %d characters before column %d came out as ...%r" % (t, sh, P, g[-40:]), case)
+                break
+        res.out(len(lines))
+        res.samples.append({"column": P, "lines": len(lines)})
+        return res
+
+
 def parts(tier, seed):
     return [MaskPart(tier, seed), NetworkPart(tier, seed), LazyPart(tier, seed), PrivatePart(tier, seed),
-            LongHistory(tier, seed), SecondAnonymizer(tier, seed), PrivateOptionSpellings(tier, seed)]
+            LongHistory(tier, seed), SecondAnonymizer(tier, seed), PrivateOptionSpellings(tier, seed), Columns(tier, seed)]
